@@ -319,9 +319,44 @@ def probe_dispatch(md):
     return log, want
 
 
+SPY_DOC = ("para\nmore\n\n[foo]: /u\n'title\ncont'\n\n[bar\nbaz]: /v\n\n> q\nlazy\n\n- a\n- b\nx\n\nh\nmore\n===\n\n|a|b|\n|-|-|\n|1|2|\nrow\n")
+# chain -> functions (rule bodies) that may run it; the caller is identified by its frame, not by parentType (which the list
+# rule's own chain sees stale: observation O4)
+SPY_ALLOWED = {"paragraph": {"paragraph", "lheading"}, "reference": {"reference"}, "blockquote": {"blockquote", "table"}, "list": {"list_block"}}
+
+
+def chain_spies(ctx: Ctx):
+    """one never-matching rule per named terminator chain (alt = [chain] only): it must be called, in silent mode, exactly
+    from the rules that are documented to run that chain — what getRules(chain) reports is what is applied"""
+    from markdown_it import MarkdownIt
+
+    for preset in ("commonmark", "js-default"):
+        md = MarkdownIt(preset).enable("table")
+        seen = {c: set() for c in SPY_ALLOWED}
+        for c in SPY_ALLOWED:
+            def spy(state, startLine, endLine, silent, _c=c):
+                import sys as _sys
+                seen[_c].add((_sys._getframe(1).f_code.co_name, bool(silent)))
+                return False
+            md.block.ruler.before("paragraph", "spy_" + c, spy, {"alt": [c]})
+        md.parse(SPY_DOC)
+        for c, allowed in SPY_ALLOWED.items():
+            reported = "spy_" + c in [r.name for r in md.block.ruler.__rules__ if r.enabled and c in r.alt]
+            silent_from = {p_ for p_, s_ in seen[c] if s_}
+            ctx.count(("spy", preset, c), nontrivial=True)
+            if reported and not silent_from:
+                ctx.fail("applied!=reported", f"getRules({c!r}) reports the rule spy_{c} but no rule ever ran it as a terminator on a document "
+                         f"that exercises every terminator-running rule", {"preset": preset, "chain": c, "input": SPY_DOC})
+            elif not silent_from <= allowed:
+                ctx.fail("applied!=reported", f"a rule registered for the {c!r} chain only was run as a terminator by "
+                         f"{sorted(silent_from - allowed)}: the chain applied there is not the one getRules reports for it",
+                         {"preset": preset, "chain": c, "seen": sorted(map(str, seen[c])), "input": SPY_DOC})
+
+
 def run(ctx: Ctx) -> None:
     quick = ctx.quick()
     del FACADE_BAD[:]
+    chain_spies(ctx)
     nh = 1500 if quick else 40000
     maxlen = 40 if quick else 400
     rng = ctx.rng
